@@ -143,7 +143,7 @@ pub fn encode_session(cfg: &SessionCfg, ops: &[Op]) -> String {
         s.push_str(&format!(
             " H:{}:{}:{}",
             a.set_prompt.map(|p| p.to_string()).unwrap_or("-".into()),
-            a.fail as u8,
+            if a.reject { 2 } else { a.fail as u8 },
             enc_calls(&a.writes)
         ));
     }
@@ -181,6 +181,7 @@ pub fn decode_session(s: &str) -> Option<(SessionCfg, Vec<Op>)> {
             cfg.script.push(HAction {
                 set_prompt: if parts[0] == "-" { None } else { Some(parts[0].parse().ok()?) },
                 fail: parts[1] == "1",
+                reject: parts[1] == "2",
                 writes: dec_calls(parts[2])?,
             });
         } else {
@@ -547,6 +548,10 @@ pub fn run_session<C: Autocomplete + Help>(
                 found!("C05", P_C05, "cursor-out-of-range", op_name(op, &key), i, "{}", what);
             } else {
                 // the session ends here; the property whose key / call left the state broken reports it in its own terms
+                if let Shadow::Key(Key::Tab) | Shadow::Key(Key::Up) | Shadow::Key(Key::Down) = &key {
+                    // recall and completion replace the line: what they leave must still be a line (C05)
+                    found!("C05", P_C05, "replaced-line-invalid", format!("{}-{}", op_name(op, &key), class), i, "the line after recall / completion is not a sequence of characters within the buffer: {}", what);
+                }
                 match (&key, op) {
                     (Shadow::Key(Key::Tab), _) => found!("C11", P_C11, "completion", format!("invalid-line-{}", class), i, "Tab left the edited line in an invalid state: {}", what),
                     (Shadow::Key(Key::Up), _) | (Shadow::Key(Key::Down), _) => found!("C10", P_C10, "recall", format!("invalid-state-{}", class), i, "recall left the line / history in an invalid state: {}", what),
@@ -965,6 +970,11 @@ pub fn run_session<C: Autocomplete + Help>(
                         let mut tail_exp = tconv.clone().into_bytes();
                         if needs_break {
                             tail_exp.extend_from_slice(b"\r\n");
+                        }
+                        if act.reject {
+                            // the handler's text keeps its own lines; the library's error line follows on a line of its own
+                            tail_exp.extend_from_slice(b"error: unknown command\r\n");
+                            rep.count("c13.handler_output_then_rejected");
                         }
                         tail_exp.extend_from_slice(prompt.as_bytes());
                         rep.count("c13.handler_outputs");
